@@ -15,6 +15,8 @@ impl Tree {
         let mut node_index = 0;
 
         while let Some(node) = self.nodes.get(node_index) {
+            #[cfg(jbonsai_verif)]
+            crate::verif::yield_point(19);
             match node {
                 TreeNode::Leaf { pdf_index } => return Some(*pdf_index),
                 TreeNode::Node { question, yes, no } => {
